@@ -553,11 +553,15 @@ func (b *Block) Clear() {
 
 /*SetBlockState - set the state of the block */
 func (b *Block) SetBlockState(blockState int8) {
+	b.stateStatusMutex.Lock()
+	defer b.stateStatusMutex.Unlock()
 	b.blockState = blockState
 }
 
 /*GetBlockState - get the state of the block */
 func (b *Block) GetBlockState() int8 {
+	b.stateStatusMutex.RLock()
+	defer b.stateStatusMutex.RUnlock()
 	return b.blockState
 }
 
@@ -664,11 +668,15 @@ func (b *Block) IsBlockFinalised() bool {
 
 /*SetVerificationStatus - set the verification status of the block by this node */
 func (b *Block) SetVerificationStatus(status int) {
+	b.stateStatusMutex.Lock()
+	defer b.stateStatusMutex.Unlock()
 	b.verificationStatus = status
 }
 
 /*GetVerificationStatus - get the verification status of the block */
 func (b *Block) GetVerificationStatus() int {
+	b.stateStatusMutex.RLock()
+	defer b.stateStatusMutex.RUnlock()
 	return b.verificationStatus
 }
 
